@@ -21,6 +21,7 @@ from fjv.stl_common import compare, oracle, run_behaviours
 
 HEXV = ["x", "y", "z"]
 BITV = ["p", "q"]
+ERRV = ["r"]          # a one-bit error flag
 NDH, NDB = 18, 70
 
 
@@ -71,6 +72,17 @@ def io_blocks(rng: random.Random, sizes: List[int]) -> List[Block]:
         for nbits in (nb, nb - 1, nb - 3, max(1, nb - 2)):
             B.append(Block("bit2hex", "stl.bit2hex {n}, {v0}, {v1}", [rng.choice(HEXV), rng.choice(BITV)], nbits, name="stl.bit2hex(3)", B=16))
         B.append(Block("hex2bit", "stl.hex2bit {n}, {v0}, {v1}", [rng.choice(BITV), rng.choice(HEXV)], n, name="stl.hex2bit(3)", B=16))
+    # casts between values and ASCII (v0 = the destination / the error flag); print_str
+    p_, q_ = BITV
+    for a_, b_ in ((p_, q_), (q_, p_)):
+        B.append(Block("bin2ascii", "bit.bin2ascii {v0}, {v1}", [a_, b_], 1, B=2))
+        B.append(Block("dec2ascii", "bit.dec2ascii {v0}, {v1}", [a_, b_], 4, B=2))
+        B.append(Block("hex2ascii", "bit.hex2ascii {v0}, {v1}", [a_, b_], 4, B=2))
+    for key, nm in (("ascii2bin", "bit.ascii2bin"), ("ascii2dec", "bit.ascii2dec"), ("ascii2hex", "bit.ascii2hex")):
+        B.append(Block(key, nm + " {v0}, {v1}, {v2}", ["r", p_, q_], 8, B=2))
+        B.append(Block(key, nm + " {v0}, {v1}, {v2}", ["r", q_, p_], 8, B=2))
+    for n in sizes[:3]:
+        B.append(Block("print_str", "bit.print_str {n}, {v0}", [rng.choice(BITV)], n, B=2))
     B.append(Block("bit2hex", "stl.bit2hex {v0}, {v1}", [rng.choice(HEXV), rng.choice(BITV)], 1, name="stl.bit2hex(2)", B=16))
     B.append(Block("hex2bit", "stl.hex2bit {v0}, {v1}", [rng.choice(BITV), rng.choice(HEXV)], 1, name="stl.hex2bit(2)", B=16))
     return B
@@ -116,10 +128,12 @@ def gen_val(rng: random.Random, nd: int, base_bits: int, n: int) -> int:
 
 def run_width(chk: Check, fjm_run, w: int, sizes: List[int], count: int, rng: random.Random):
     blocks = io_blocks(rng, sizes)
-    arena = Arena(fjm_run, w, "hex", HEXV + BITV, NDH, blocks)
+    arena = Arena(fjm_run, w, "hex", HEXV + BITV + ERRV, NDH, blocks)
     for v in BITV:
         arena.var_kind[v] = "bit"
         arena.var_nd[v] = NDB
+    arena.var_kind["r"] = "bit"
+    arena.var_nd["r"] = 3
     try:
         arena.assemble()
         behs = []
@@ -130,14 +144,19 @@ def run_width(chk: Check, fjm_run, w: int, sizes: List[int], count: int, rng: ra
                 blk = blocks[bi]
                 nn = blk.n if blk.B == 16 or blk.key in ("print_bits",) else max(1, blk.n)
                 st = {"block": bi, "set": {}, "inp": gen_input(rng, blk.key, blk.n)}
-                for v in (HEXV + BITV if k == 0 else blk.v):
-                    if v in HEXV:
+                for v in (HEXV + BITV + ERRV if k == 0 else blk.v):
+                    if v == "r":
+                        st["set"][v] = rng.randrange(8)
+                    elif blk.key.startswith("ascii2") and v == blk.v[2]:
+                        ch = rng.choice([rng.choice(b"0123456789abcdefABCDEF"), rng.choice(b"/:@G`g"), rng.randrange(256)])
+                        st["set"][v] = (rng.randrange(1 << (NDB - 8)) << 8) | ch
+                    elif v in HEXV:
                         st["set"][v] = gen_val(rng, NDH, 4, min(blk.n if blk.B == 16 else (blk.n + 3) // 4, NDH))
                     else:
                         st["set"][v] = gen_val(rng, NDB, 1, min(blk.n if blk.B == 2 else 4 * blk.n, NDB))
                 beh.append(st)
             behs.append(beh)
-        expected = oracle(chk, 16, HEXV + BITV, blocks, behs, f"StlSem[io w={w}]")
+        expected = oracle(chk, 16, HEXV + BITV + ERRV, blocks, behs, f"StlSem[io w={w}]")
         results, broken = run_behaviours(arena, behs)
         n = compare(chk, arena, behs, results, broken, expected, blocks, f"io w={w}")
         chk.traces += len(behs)
